@@ -1,14 +1,14 @@
 """C02 configuration for bin/check and bin/mkmanifest.py."""
 CFG = {
    "ready": True,
-   "level_text": "Proof + independent implementation: Coq theorems show that the fixed-width fields the encoder writes (VP8 frame tag with the 19-bit partition-0 length, 14-bit dimensions, the 24-bit token-partition size table; the VP8L 5-byte header) are read back exactly by a reader following the format, for all dimensions and all partition contents, and that Encode's size guard refuses exactly the sizes the fields cannot hold (the pre-fix truncation is a theorem about the pinned definition). Every file Encode reports as written is then analysed on each run by the extracted specification models — the RIFF/WebP grammar written from the container spec, the VP8L specification decoder, the ALPH codec model with the VP8L specification decoder inside — and their verdict (well-formed, declared dimensions and alpha, every lossless pixel, every alpha value) must equal what webp.Decode and the source image say; a Go-side walker independently checks sizes, padding, chunk order, VP8X flags and canvas against the options.",
-   "level_note": "Trusted: Coq kernel, extraction, OCaml glue, Go harness. RIFF writer well-formedness theorems are stated under C15 (WriterModel), VP8L stream theorems under C03, ALPH under C07, VP8 key-frame decoding under C04; lossy *pixel* agreement with the independent VP8 specification decoder is evaluated in C04/C06's runs (same encoder outputs) and joined here when that model is linked. The encoder's heuristics are not modelled: that each sampled output conforms is evaluated, not proved.",
+   "level_text": "Proof + independent implementation: Coq theorems show that the fixed-width fields the encoder writes (VP8 frame tag with the 19-bit partition-0 length, 14-bit dimensions, the 24-bit token-partition size table; the VP8L 5-byte header) are read back exactly by a reader following the format, for all dimensions and all partition contents, and that Encode's size guard refuses exactly the sizes the fields cannot hold (the pre-fix truncation is a theorem about the pinned definition). Every file Encode reports as written is then analysed on each run by the extracted specification models — the RIFF/WebP grammar written from the container spec, the VP8L specification decoder, the RFC 6386 VP8 specification decoder, the ALPH codec model with the VP8L specification decoder inside — and their verdict (well-formed, declared dimensions and alpha, every lossless pixel, every Y/U/V sample after the loop filter, every alpha value) must equal what webp.Decode and the source image say; a Go-side walker independently checks sizes, padding, chunk order, VP8X flags and canvas against the options.",
+   "level_note": "Trusted: Coq kernel, extraction, OCaml glue, Go harness. RIFF writer well-formedness theorems are stated under C15 (WriterModel), VP8L stream theorems under C03, ALPH under C07, VP8 key-frame decoding under C04; The encoder's heuristics are not modelled: that each sampled output conforms is evaluated, not proved.",
    "technique": "Rocq theorems on header-field round trips and size guards; extracted independent format implementation (grammar + VP8L spec decoder + ALPH model) run against every encoder output",
    "notes": [
      "theorems: C02_vp8_frame_fields_roundtrip, C02_emit_frame_guard_exact, C02_emit_frame_total, C02_vp8l_header_roundtrip, C02_limits_match_source; C02_pinned_emit_truncates_part0_refuted documents the defect fixed by ca1de97",
      "cases: 'file <hex>' analysed by ConformFile.analyse (S = specification side); 'hdr' cases compare emit_frame's header/size-table bytes with the layout the Go decoder reads",
    ],
-   "partial": ["lossy pixel equality with the independent VP8 specification decoder is checked in C04's run over the same option product, not yet linked into this runner"],
+   "partial": ["that every output of the (unmodelled) encoder heuristics conforms is evaluated on the generated option/image product each run, not proved; the RIFF writer's well-formedness theorem lives in C15 (WriterModel)"],
    "trusted_base": ["modelled, not verified: internal/lossy/encode_syntax.go emitFrame/assembleFrame; the RIFF grammar, VP8L spec decoder and ALPH model are independent specifications, not models of /repo code"],
    "assumptions": [],
 }
